@@ -12,9 +12,10 @@
      E. match_spec, contains_iff, split_between
      F. replace_backwards_is_forwards
      G. template_spec: expandReplaceString clause by clause
-     H. integers below 2^53 survive float64 (int_exact_small, the only place where the
-        standard-library real-number axioms enter, through Proofs/F64Facts.v)
-   Everything except part H is closed under the global context. *)
+     H. integers below 2^53 survive float64 (int_exact_small), proved directly on SpecFloat
+     I. the same statements at the level of Callable.Call on the built-ins (dispatch through
+        the signature table)
+   Everything is closed under the global context (no axioms). *)
 From Coq Require Import List Bool Arith ZArith Lia String Ascii.
 From JV Require Import Base.Bytes Base.Utf8 Base.F64 Base.Res.
 From JV Require Import Model.Value Model.Builtins Model.LibCore Model.Eval Model.LibString.
@@ -356,3 +357,1192 @@ Proof. split; reflexivity. Qed.
 
 Print Assumptions match_chain_enumerates.
 Print Assumptions regex_call_first.
+
+(* ==================================================================================== *)
+(* D. extractMatches                                                                    *)
+(* ==================================================================================== *)
+Section Extract.
+  Variable regex_find : string -> string -> option (list (list (Z * Z))).
+  Variable apply : callable -> list ovalue -> M ovalue.
+  Hypothesis Happly : chain_apply_ok regex_find apply.
+  Variables (s src : string) (ms : list (list (Z * Z))).
+  Hypothesis Hint : int_exact (Z.of_nat (slen s)).
+  Hypothesis Horacle : regex_find src s = Some ms.
+  Hypothesis Hwf : wf_matches s ms.
+
+  (* the fuel extractMatches gives callMatchFunc is enough, the limit keeps the first [limit]
+     matches when 0 <= limit < number of matches and all of them otherwise, and the offset
+     validation always passes *)
+  Theorem extract_matches_spec limit w :
+    extract_matches apply (CRegex src) s limit w
+    = Ok (take_limit limit (map (mrec_of s) ms)) w.
+  Proof.
+    unfold extract_matches. unfold bind.
+    rewrite (match_chain_enumerates regex_find apply Happly s Hint src ms Horacle Hwf)
+      by (pose proof (wf_matches_length s ms Hwf); lia).
+    fold (take_limit limit (map (mrec_of s) ms)).
+    rewrite take_limit_map.
+    rewrite (offsets_ok_wf s _ _ 0 (-1)); [reflexivity|lia|].
+    apply wf_take_limit. exact Hwf.
+  Qed.
+
+  Corollary extract_matches_all w :
+    extract_matches apply (CRegex src) s (-1) w = Ok (map (mrec_of s) ms) w.
+  Proof. rewrite extract_matches_spec. now rewrite take_limit_neg by lia. Qed.
+
+  Corollary extract_matches_firstn limit w :
+    0 <= limit ->
+    extract_matches apply (CRegex src) s limit w = Ok (map (mrec_of s) (firstn (Z.to_nat limit) ms)) w.
+  Proof.
+    intro H. rewrite extract_matches_spec, take_limit_map. now rewrite take_limit_firstn by lia.
+  Qed.
+End Extract.
+
+Print Assumptions extract_matches_spec.
+
+(* ==================================================================================== *)
+(* E. $match, $contains, $split with a regex literal                                    *)
+(* ==================================================================================== *)
+(* the $split loop: cut at every match, then the tail *)
+Lemma split_loop {B} s (K : list string -> M B) : forall ms acc pos lo w,
+  0 <= pos <= Z.of_nat (slen s) -> wf_matches_from (Z.of_nat (slen s)) pos lo ms ->
+  bind (foldM (fun (st : list string * Z) (m : mrec) =>
+                 let '(acc, pos) := st in
+                 p <- go_slice s pos (m_start m) ;;
+                 ret (acc ++ [p], m_end m)) (acc, pos) (map (mrec_of s) ms))
+       (fun st => let '(parts, pos') := st in
+                  tail <- go_slice s pos' (Z.of_nat (slen s)) ;; K (parts ++ [tail])) w
+  = K (acc ++ between s pos (map span_of ms)) w.
+Proof.
+  induction ms as [|m rest IH]; intros acc pos lo w Hp W.
+  - cbn [map foldM between]. unfold bind at 1. unfold ret at 1.
+    unfold bind. rewrite go_slice_ok by lia. reflexivity.
+  - destruct m as [|[a b] gs]; [contradiction|]. cbn [wf_matches_from] in W.
+    destruct W as (H1 & H2 & H3 & H4 & H5 & H6).
+    cbn [map foldM between span_of].
+    cbn [mrec_of span_of fst snd m_start m_end].
+    unfold bind at 1. unfold bind at 1. unfold bind at 1.
+    rewrite go_slice_ok by lia. unfold ret at 1.
+    specialize (IH (acc ++ [byte_slice s pos a]) b b w ltac:(lia) H6).
+    unfold bind at 1 in IH. 
+    match goal with
+    | |- match ?X with _ => _ end = _ => 
+        match type of IH with match ?Y with _ => _ end = _ => change X with Y end
+    end.
+    rewrite IH. rewrite <- app_assoc. reflexivity.
+Qed.
+
+Section Functions.
+  Variables (fm : f64 -> string) (regex_find : string -> string -> option (list (list (Z * Z))))
+            (pw : f64 -> f64 -> option f64) (xl : string -> list carg -> option (lres ovalue)).
+  Notation call' := (call fm regex_find pw xl).
+  Notation call_builtin' := (call_builtin fm regex_find pw xl).
+
+  (* the regex branches of the built-ins, as equations of the model *)
+  Lemma builtin_match_eq f s c lim :
+    call_builtin' (S f) "match" [AStr s; AFun c; lim]
+    = if limit_or lim 0 <? 0 then fail (ELib "match: limit") else
+      (ms <- extract_matches (fun c' a => call' f c' None None a) c s (limit_or lim (-1)) ;;
+       ret (Some (VArr (map match_result ms)))).
+  Proof. reflexivity. Qed.
+
+  Lemma builtin_contains_eq f s c :
+    call_builtin' (S f) "contains" [AStr s; AFun c]
+    = (ms <- extract_matches (fun c' a => call' f c' None None a) c s (-1) ;;
+       ret (Some (VBool (match ms with [] => false | _ => true end)))).
+  Proof. reflexivity. Qed.
+
+  Lemma builtin_split_eq f s c lim :
+    call_builtin' (S f) "split" [AStr s; AFun c; lim]
+    = if limit_or lim 0 <? 0 then fail (ELib "split: limit") else
+      (ms <- extract_matches (fun c' a => call' f c' None None a) c s (-1) ;;
+       '(parts, pos) <- foldM (fun (st : list string * Z) (m : mrec) =>
+                         let '(acc, pos) := st in
+                         p <- go_slice s pos (m_start m) ;;
+                         ret (acc ++ [p], m_end m)) ([], 0%Z) ms ;;
+       tail <- go_slice s pos (Z.of_nat (slen s)) ;;
+       ret (Some (VArr (map VStr (split_limit (limit_of lim) (parts ++ [tail])))))).
+  Proof. reflexivity. Qed.
+
+  Variables (s src : string) (ms : list (list (Z * Z))).
+  Hypothesis Hint : int_exact (Z.of_nat (slen s)).
+  Hypothesis Horacle : regex_find src s = Some ms.
+  Hypothesis Hwf : wf_matches s ms.
+
+  Let extract_ok f limit w :=
+    extract_matches_spec regex_find _ (call_chain_apply_ok regex_find fm pw xl f)
+                         s src ms Hint Horacle Hwf limit w.
+
+  (* $match(s, /src/, lim): a negative limit is an error; otherwise one object
+     {match, index, groups} per oracle match, in order, the first [lim] of them (all when the
+     limit is absent) *)
+  Theorem match_spec f lim w :
+    call_builtin' (S (S (S f))) "match" [AStr s; AFun (CRegex src); lim] w
+    = if limit_or lim 0 <? 0 then Err (ELib "match: limit")
+      else Ok (Some (VArr (map match_result (map (mrec_of s) (take_limit (limit_or lim (-1)) ms))))) w.
+  Proof.
+    rewrite builtin_match_eq. destruct (limit_or lim 0 <? 0); [reflexivity|].
+    unfold bind. rewrite extract_ok. rewrite take_limit_map. reflexivity.
+  Qed.
+
+  Corollary match_spec_all f w :
+    call_builtin' (S (S (S f))) "match" [AStr s; AFun (CRegex src); AOpt None] w
+    = Ok (Some (VArr (map match_result (map (mrec_of s) ms)))) w.
+  Proof.
+    rewrite match_spec. unfold limit_or, limit_of. change (0 <? 0) with false. cbv iota.
+    now rewrite take_limit_neg by lia.
+  Qed.
+
+  Corollary match_spec_limit f z w :
+    0 <= z ->
+    call_builtin' (S (S (S f))) "match" [AStr s; AFun (CRegex src); AOpt (Some (AInt z))] w
+    = Ok (Some (VArr (map match_result (map (mrec_of s) (firstn (Z.to_nat z) ms))))) w.
+  Proof.
+    intro H. rewrite match_spec. unfold limit_or, limit_of.
+    replace (z <? 0) with false by lia. now rewrite take_limit_firstn by lia.
+  Qed.
+
+  Corollary match_spec_negative f z w :
+    z < 0 ->
+    call_builtin' (S (S (S f))) "match" [AStr s; AFun (CRegex src); AOpt (Some (AInt z))] w
+    = Err (ELib "match: limit").
+  Proof.
+    intro H. rewrite match_spec. unfold limit_or, limit_of. now replace (z <? 0) with true by lia.
+  Qed.
+
+  (* $contains(s, /src/) is true iff the engine finds at least one match *)
+  Theorem contains_iff f w :
+    call_builtin' (S (S (S f))) "contains" [AStr s; AFun (CRegex src)] w
+    = Ok (Some (VBool (match ms with [] => false | _ => true end))) w.
+  Proof.
+    rewrite builtin_contains_eq. unfold bind. rewrite extract_ok.
+    rewrite take_limit_neg by lia. destruct ms; reflexivity.
+  Qed.
+
+  Corollary contains_true_iff f w :
+    call_builtin' (S (S (S f))) "contains" [AStr s; AFun (CRegex src)] w = Ok (Some (VBool true)) w
+    <-> ms <> [].
+  Proof.
+    rewrite contains_iff. destruct ms; split; intro H; try congruence; try discriminate.
+  Qed.
+
+  (* $split(s, /src/, lim): the texts between consecutive matches
+     s[0..m1.start), s[m1.end..m2.start), ..., s[mk.end..) — always number of matches + 1
+     parts before the limit; no slice panics *)
+  Theorem split_between f lim w :
+    call_builtin' (S (S (S f))) "split" [AStr s; AFun (CRegex src); lim] w
+    = if limit_or lim 0 <? 0 then Err (ELib "split: limit")
+      else Ok (Some (VArr (map VStr (split_limit (limit_of lim) (between s 0 (map span_of ms)))))) w.
+  Proof.
+    rewrite builtin_split_eq. destruct (limit_or lim 0 <? 0); [reflexivity|].
+    unfold bind at 1. rewrite extract_ok. rewrite take_limit_neg by lia.
+    exact (split_loop s (fun parts => ret (Some (VArr (map VStr (split_limit (limit_of lim) parts)))))
+                      ms [] 0 (-1) w ltac:(lia) Hwf).
+  Qed.
+
+  Corollary split_between_limit f z w :
+    0 <= z ->
+    call_builtin' (S (S (S f))) "split" [AStr s; AFun (CRegex src); AOpt (Some (AInt z))] w
+    = Ok (Some (VArr (map VStr (firstn (Z.to_nat z) (between s 0 (map span_of ms)))))) w.
+  Proof.
+    intro H. rewrite split_between. unfold limit_or, limit_of, split_limit.
+    replace (z <? 0) with false by lia.
+    destruct (z <? _) eqn:E; [reflexivity|]. rewrite firstn_all2 by lia. reflexivity.
+  Qed.
+End Functions.
+
+Lemma between_length s pos spans : List.length (between s pos spans) = S (List.length spans).
+Proof. revert pos; induction spans as [|[a b] r IH]; intros pos; simpl; auto. Qed.
+
+Print Assumptions match_spec.
+Print Assumptions contains_iff.
+Print Assumptions split_between.
+
+(* ==================================================================================== *)
+(* F. $replace with a regex literal                                                     *)
+(* ==================================================================================== *)
+Lemma bind_unfold {A B} (m : M A) (f : A -> M B) w :
+  bind m f w = match m w with
+               | Ok a w' => f a w' | Err e => Err e | Panic s => Panic s
+               | OutOfFuel => OutOfFuel | Need q => Need q
+               end.
+Proof. reflexivity. Qed.
+
+Lemma foldM_app {A B} (f : B -> A -> M B) l1 l2 : forall acc w,
+  foldM f acc (l1 ++ l2) w = bind (foldM f acc l1) (fun a => foldM f a l2) w.
+Proof.
+  induction l1 as [|x l1 IH]; intros acc w; [reflexivity|].
+  cbn [app foldM]. unfold bind. destruct (f acc x w); try reflexivity.
+  rewrite IH. reflexivity.
+Qed.
+
+Lemma mapM_app {A B} (f : A -> M B) l1 l2 : forall w,
+  mapM f (l1 ++ l2) w
+  = bind (mapM f l1) (fun r1 => bind (mapM f l2) (fun r2 => ret (r1 ++ r2))) w.
+Proof.
+  induction l1 as [|x l1 IH]; intros w.
+  - cbn [app mapM]. unfold bind, ret. destruct (mapM f l2 w); reflexivity.
+  - cbn [app mapM]. unfold bind at 1. unfold bind at 2. unfold bind at 2.
+    destruct (f x w) as [y w1| | | |]; try reflexivity.
+    unfold bind at 1. rewrite IH. unfold bind, ret.
+    destruct (mapM f l1 w1) as [r1 w2| | | |]; try reflexivity.
+    destruct (mapM f l2 w2); reflexivity.
+Qed.
+
+(* the text computed for one match: the template (expanded when it contains a dollar) or the
+   string returned by the replacement function called with the match object *)
+Definition replacement (xl : string -> list carg -> option (lres ovalue))
+           (apply : callable -> list ovalue -> M ovalue) (repl : carg) (m : mrec) : M string :=
+  match repl with
+  | AFun fr =>
+      v <- apply fr [Some (match_result m)] ;;
+      match v with
+      | Some (VStr s) => ret s
+      | _ => fail (ELib "replace: function must return a string")
+      end
+  | AStr s =>
+      if scontains "$" s then
+        match xl "expandReplaceString"%string
+                 [AStr s; AStr (m_value m); AVal (Some (VArr (map VStr (m_groups m))))] with
+        | Some (LOk (Some (VStr e))) => ret e
+        | _ => fail (ELib "unmodelled:expandReplaceString")
+        end
+      else ret s
+  | _ => ret EmptyString
+  end.
+
+(* one backwards splice: cur[:start] + r + cur[end:] *)
+Definition replace_step (R : mrec -> M string) (cur : string) (m : mrec) : M string :=
+  r <- R m ;;
+  a <- go_slice cur 0 (m_start m) ;;
+  b <- go_slice cur (m_end m) (Z.of_nat (slen cur)) ;;
+  ret (a ++ r ++ b)%string.
+
+Definition first_start_ge (q : Z) (L : list ((Z * Z) * string)) : Prop :=
+  match L with [] => True | ((a, _), _) :: _ => q <= a end.
+
+Lemma replace_fwd_split s p q L :
+  0 <= p -> p <= q -> q <= Z.of_nat (slen s) -> first_start_ge q L ->
+  replace_fwd s p L = (byte_slice s p q ++ replace_fwd s q L)%string.
+Proof.
+  intros H1 H2 H3 HL. destruct L as [|[[a b] r] rest]; cbn [replace_fwd].
+  - now rewrite byte_slice_split by lia.
+  - cbn in HL. rewrite <- (sapp_assoc (byte_slice s p q)). now rewrite byte_slice_split by lia.
+Qed.
+
+Lemma first_start_ge_combine len b rest (X : list string) :
+  wf_matches_from len b b rest -> first_start_ge b (combine (map span_of rest) X).
+Proof.
+  destruct rest as [|[|[a' b'] gs] tl]; [exact (fun _ => I)|contradiction|].
+  destruct X; [exact (fun _ => I)|]. cbn. tauto.
+Qed.
+
+(* splicing from the last match backwards = the forward definition; all outcomes (also a
+   failing replacement function) are covered because the statement is an equation between
+   computations: evaluate the replacements for the matches from the last to the first, then
+   assemble  s[0..m1.start) r1 s[m1.end..m2.start) r2 ... s[mk.end..) *)
+Lemma replace_loop s (R : mrec -> M string) : forall ms pos lo w,
+  0 <= pos -> wf_matches_from (Z.of_nat (slen s)) pos lo ms ->
+  foldM (replace_step R) s (rev (map (mrec_of s) ms)) w
+  = bind (mapM R (rev (map (mrec_of s) ms)))
+         (fun rs => ret (replace_fwd s 0 (combine (map span_of ms) (rev rs)))) w.
+Proof.
+  induction ms as [|m rest IH]; intros pos lo w Hp W.
+  - cbn. unfold ret. now rewrite byte_slice_whole.
+  - destruct m as [|[a b] gs]; [contradiction|]. cbn [wf_matches_from] in W.
+    destruct W as (H1 & H2 & H3 & H4 & H5 & H6).
+    cbn [map rev]. rewrite foldM_app, bind_unfold, (IH b b w ltac:(lia) H6), bind_unfold.
+    rewrite (bind_unfold (mapM R _)), mapM_app, bind_unfold.
+    destruct (mapM R (rev (map (mrec_of s) rest)) w) as [rs w1| | | |]; try reflexivity.
+    unfold ret at 1. cbn [foldM mapM]. rewrite !bind_unfold. unfold replace_step at 1.
+    rewrite !bind_unfold.
+    destruct (R (mrec_of s ((a, b) :: gs)) w1) as [r w2| | | |]; try reflexivity.
+    unfold bind, ret. cbv beta iota.
+    rewrite rev_app_distr. cbn [rev app map span_of combine replace_fwd].
+    cbn [mrec_of span_of fst snd m_start m_end].
+    set (L := combine (map span_of rest) (rev rs)).
+    assert (HL : first_start_ge b L) by (eapply first_start_ge_combine; eauto).
+    rewrite (replace_fwd_split s 0 b L) by (auto; lia).
+    set (X := replace_fwd s b L).
+    assert (Eb : slen (byte_slice s 0 b) = Z.to_nat b).
+    { rewrite byte_slice_0. apply slen_stake. lia. }
+    rewrite go_slice_ok by (rewrite ?slen_app; lia).
+    rewrite go_slice_ok by (rewrite ?slen_app; lia).
+    f_equal. f_equal.
+    + rewrite !byte_slice_0. rewrite stake_app_l by (rewrite slen_stake; lia).
+      apply stake_stake. lia.
+    + f_equal. rewrite byte_slice_to_end, byte_slice_0.
+      rewrite sdrop_app_l by (rewrite slen_stake; lia).
+      rewrite sdrop_all by (rewrite slen_stake; lia). reflexivity.
+Qed.
+
+Section Replace.
+  Variables (fm : f64 -> string) (regex_find : string -> string -> option (list (list (Z * Z))))
+            (pw : f64 -> f64 -> option f64) (xl : string -> list carg -> option (lres ovalue)).
+  Notation call' := (call fm regex_find pw xl).
+  Notation call_builtin' := (call_builtin fm regex_find pw xl).
+
+  Lemma builtin_replace_eq f s pat repl lim :
+    call_builtin' (S f) "replace" [AStr s; AFun pat; repl; lim]
+    = if limit_or lim 0 <? 0 then fail (ELib "replace: limit") else
+      match repl with
+      | AStr _ | AFun _ =>
+          ms <- extract_matches (fun c' a => call' f c' None None a) pat s (limit_or lim (-1)) ;;
+          out <- foldM (replace_step (replacement xl (fun c' a => call' f c' None None a) repl))
+                       s (rev ms) ;;
+          ret (Some (VStr out))
+      | _ => fail (ELib "replace: third argument")
+      end.
+  Proof. reflexivity. Qed.
+
+  Variables (s src : string) (ms : list (list (Z * Z))).
+  Hypothesis Hint : int_exact (Z.of_nat (slen s)).
+  Hypothesis Horacle : regex_find src s = Some ms.
+  Hypothesis Hwf : wf_matches s ms.
+
+  (* $replace(s, /src/, repl, lim) with repl a string or a function: the replacement texts
+     are computed for the first [lim] matches (all when absent), from the LAST match to the
+     first, and the result is the forward splice.  Nothing panics. *)
+  Theorem replace_backwards_is_forwards f repl lim w :
+    (match repl with AStr _ | AFun _ => True | _ => False end) ->
+    let sel := take_limit (limit_or lim (-1)) ms in
+    call_builtin' (S (S (S f))) "replace" [AStr s; AFun (CRegex src); repl; lim] w
+    = if limit_or lim 0 <? 0 then Err (ELib "replace: limit")
+      else bind (mapM (replacement xl (fun c' a => call' (S (S f)) c' None None a) repl)
+                      (rev (map (mrec_of s) sel)))
+                (fun rs => ret (Some (VStr (replace_fwd s 0 (combine (map span_of sel) (rev rs)))))) w.
+  Proof.
+    intros Hrepl sel. rewrite builtin_replace_eq. destruct (limit_or lim 0 <? 0); [reflexivity|].
+    assert (E : forall (X : M ovalue) (Y : M ovalue),
+               (match repl with AStr _ | AFun _ => X | _ => Y end) = X)
+      by (intros; destruct repl; try contradiction; reflexivity).
+    rewrite E. unfold bind at 1.
+    rewrite (extract_matches_spec regex_find _ (call_chain_apply_ok regex_find fm pw xl f)
+                                  s src ms Hint Horacle Hwf).
+    rewrite take_limit_map. fold sel. unfold bind at 1.
+    rewrite (replace_loop s _ sel 0 (-1)) by (try lia; apply wf_take_limit; exact Hwf).
+    unfold bind, ret. destruct (mapM _ _ w); reflexivity.
+  Qed.
+
+  (* a replacement that always succeeds with [g m] and leaves the world alone (a template) *)
+  Corollary replace_pure f repl lim g w :
+    (match repl with AStr _ | AFun _ => True | _ => False end) ->
+    (forall m w, replacement xl (fun c' a => call' (S (S f)) c' None None a) repl m w = Ok (g m) w) ->
+    0 <= limit_or lim 0 ->
+    call_builtin' (S (S (S f))) "replace" [AStr s; AFun (CRegex src); repl; lim] w
+    = Ok (Some (VStr (replace_fwd s 0 (map (fun m => (span_of m, g (mrec_of s m)))
+                                             (take_limit (limit_or lim (-1)) ms))))) w.
+  Proof.
+    intros Hrepl Hg Hl. rewrite replace_backwards_is_forwards by exact Hrepl.
+    replace (limit_or lim 0 <? 0) with false by lia. cbv zeta.
+    unfold bind. rewrite (mapM_pure _ g) by exact Hg. unfold ret.
+    rewrite <- map_rev, rev_involutive.
+    assert (E : forall l, combine (map span_of l) (map g (map (mrec_of s) l))
+                          = map (fun m => (span_of m, g (mrec_of s m))) l).
+    { induction l as [|m l IH]; [reflexivity|]. cbn [map combine]. now rewrite IH. }
+    rewrite E. reflexivity.
+  Qed.
+
+  (* a template without a dollar sign is inserted literally *)
+  Corollary replace_literal f t lim w :
+    scontains "$" t = false -> 0 <= limit_or lim 0 ->
+    call_builtin' (S (S (S f))) "replace" [AStr s; AFun (CRegex src); AStr t; lim] w
+    = Ok (Some (VStr (replace_fwd s 0 (map (fun m => (span_of m, t))
+                                             (take_limit (limit_or lim (-1)) ms))))) w.
+  Proof.
+    intros Ht Hl. apply (replace_pure f (AStr t) lim (fun _ => t)); [exact I| |exact Hl].
+    intros m w0. unfold replacement. rewrite Ht. reflexivity.
+  Qed.
+
+  (* a template with dollar signs is expanded by expandReplaceString with the matched text and
+     the group texts, provided the library oracle is the model's dispatcher
+     (Model/LibDispatch.v xlib satisfies the hypothesis by computation, see xlib_expand_ok) *)
+  Corollary replace_template f t lim w :
+    (forall mv gs, xl "expandReplaceString"%string [AStr t; AStr mv; AVal (Some (VArr (map VStr gs)))]
+                   = Some (lmap (fun e => Some (VStr e)) (expand_replace_string t mv gs))) ->
+    (forall mv gs, exists e, expand_replace_string t mv gs = LOk e) ->
+    scontains "$" t = true -> 0 <= limit_or lim 0 ->
+    call_builtin' (S (S (S f))) "replace" [AStr s; AFun (CRegex src); AStr t; lim] w
+    = Ok (Some (VStr (replace_fwd s 0
+           (map (fun m => (span_of m,
+                           match expand_replace_string t (m_value (mrec_of s m)) (m_groups (mrec_of s m))
+                           with LOk e => e | _ => EmptyString end))
+                (take_limit (limit_or lim (-1)) ms))))) w.
+  Proof.
+    intros Hx He Ht Hl.
+    apply (replace_pure f (AStr t) lim
+             (fun m => match expand_replace_string t (m_value m) (m_groups m) with
+                       | LOk e => e | _ => EmptyString end)); [exact I| |exact Hl].
+    intros m w0. unfold replacement. rewrite Ht, Hx.
+    destruct (He (m_value m) (m_groups m)) as (e & ->). reflexivity.
+  Qed.
+End Replace.
+
+Print Assumptions replace_backwards_is_forwards.
+Print Assumptions replace_template.
+
+(* ==================================================================================== *)
+(* G. the replacement template (expandReplaceString)                                    *)
+(* ==================================================================================== *)
+Definition pre (p : string) (r : lres string) : lres string := lmap (fun x => (p ++ x)%string) r.
+
+Lemma pre_pre p q r : pre p (pre q r) = pre (p ++ q) r.
+Proof. destruct r; cbn; try reflexivity. now rewrite sapp_assoc. Qed.
+
+Lemma pre_nil r : pre EmptyString r = r.
+Proof. destruct r; reflexivity. Qed.
+
+(* backoff only ever answers "group text and how many digits it used" or "no group" *)
+Lemma backoff_find l gs :
+  backoff l gs
+  = match find (fun p : nat * Z => (0 <=? wrap_int (snd p - 1)) &&
+                                   (wrap_int (snd p - 1) <? Z.of_nat (List.length gs))) l with
+    | Some (i, n) => Some (LOk (nth (Z.to_nat (wrap_int (n - 1))) gs EmptyString, S i))
+    | None => None
+    end.
+Proof.
+  induction l as [|[i n] t IH]; [reflexivity|]. cbn [backoff find snd].
+  destruct (_ && _); [reflexivity|exact IH].
+Qed.
+
+Lemma combine_map_self {A B} (f : A -> B) l : combine l (map f l) = map (fun x => (x, f x)) l.
+Proof. induction l; simpl; congruence. Qed.
+
+(* the downward scan over the prefixes of the digit run is [longest_group] *)
+Lemma backoff_longest ds gs :
+  backoff (rev (combine (seq 0 (List.length (runes_to_numbers ds))) (runes_to_numbers ds))) gs
+  = option_map (fun gk => LOk gk) (longest_group (List.length ds) ds gs).
+Proof.
+  unfold runes_to_numbers. rewrite map_length, seq_length, combine_map_self.
+  generalize (List.length ds) as n. induction n as [|n IH]; [reflexivity|].
+  rewrite seq_S, map_app, rev_app_distr. cbn [map rev app backoff longest_group Nat.add].
+  unfold group_index at 1 2 3. destruct (_ && _); [reflexivity|exact IH].
+Qed.
+
+(* what [longest_group] finds: the longest prefix naming a group, or that there is none *)
+Lemma longest_group_some n ds gs g k :
+  longest_group n ds gs = Some (g, k) ->
+  (1 <= k <= n)%nat /\ names_group gs ds k /\
+  g = nth (Z.to_nat (group_index k ds)) gs EmptyString /\
+  forall k', (k < k' <= n)%nat -> ~ names_group gs ds k'.
+Proof.
+  induction n as [|n IH]; cbn [longest_group]; [discriminate|].
+  destruct (_ && _) eqn:E.
+  - intro H. inversion H; subst. unfold names_group.
+    split; [lia|]. split; [lia|]. split; [reflexivity|]. intros k' Hk. lia.
+  - intro H. destruct (IH H) as (H1 & H2 & H3 & H4).
+    split; [lia|]. split; [exact H2|]. split; [exact H3|].
+    intros k' Hk. destruct (Nat.eq_dec k' (S n)) as [->|Hne].
+    + unfold names_group. lia.
+    + apply H4. lia.
+Qed.
+
+Lemma longest_group_none n ds gs :
+  longest_group n ds gs = None -> forall k, (1 <= k <= n)%nat -> ~ names_group gs ds k.
+Proof.
+  induction n as [|n IH]; cbn [longest_group]; intros H k Hk; [lia|].
+  destruct (_ && _) eqn:E; [discriminate|].
+  destruct (Nat.eq_dec k (S n)) as [->|Hne].
+  - unfold names_group. lia.
+  - apply IH; [exact H|lia].
+Qed.
+
+(* runs of at most 18 digits do not wrap: the number is the decimal value *)
+Lemma dec_value_bound ds : Forall (fun r => 48 <= r <= 57) ds ->
+  0 <= dec_value ds < 10 ^ Z.of_nat (List.length ds).
+Proof.
+  unfold dec_value. rewrite <- (rev_involutive ds). generalize (rev ds) as l. clear ds.
+  induction l as [|r l IH]; intro F.
+  - cbn. lia.
+  - cbn [rev] in *. apply Forall_app in F as [F1 F2]. inversion F2; subst.
+    rewrite fold_left_app. cbn [fold_left]. rewrite app_length. cbn [List.length].
+    specialize (IH F1). replace (Z.of_nat (List.length (rev l) + 1)) with (Z.of_nat (List.length (rev l)) + 1) by lia.
+    rewrite Z.pow_add_r by lia. lia.
+Qed.
+
+Lemma num_prefix_dec ds : Forall (fun r => 48 <= r <= 57) ds -> (List.length ds <= 18)%nat ->
+  num_prefix ds = dec_value ds.
+Proof.
+  unfold num_prefix, dec_value. rewrite <- (rev_involutive ds). generalize (rev ds) as l. clear ds.
+  induction l as [|r l IH]; intros F L; [reflexivity|].
+  cbn [rev] in *. apply Forall_app in F as [F1 F2]. inversion F2; subst.
+  rewrite app_length in L. cbn [List.length] in L.
+  rewrite !fold_left_app. cbn [fold_left]. rewrite IH by (auto; lia).
+  pose proof (dec_value_bound (rev l) F1) as B. unfold dec_value in B.
+  assert (10 ^ Z.of_nat (List.length (rev l)) <= 10 ^ 17) by (apply Z.pow_le_mono_r; lia).
+  unfold wrap_int. rewrite Z.mod_small; lia.
+Qed.
+
+Section Template.
+  Variables (mv : string) (gs : list string).
+  Notation expand t := (expand_replace_string t mv gs).
+
+  (* one iteration of the loop: either the expansion ends with the suffix [t], or [z] is
+     appended and the loop continues with the shorter text [x] *)
+  Definition ers_step (s : string) : string + (string * string) :=
+    match index_byte 36 s 0 with
+    | None => inl s
+    | Some pos =>
+        let p := stake pos s in
+        let s' := sdrop (S pos) s in
+        match s' with
+        | EmptyString => inl (p ++ "$")%string
+        | String _ s1 =>
+            let r := fst (decode_rune s') in
+            if (r =? 36) || (r <? 48) || (r >? 57) then inr ((p ++ "$")%string, if r =? 36 then s1 else s')
+            else if r =? 48 then inr ((p ++ mv)%string, s1)
+            else match longest_group (List.length (leading_digits s')) (leading_digits s') gs with
+                 | Some (g, k) => inr ((p ++ g)%string, sdrop k s')
+                 | None => inr (p, s1)
+                 end
+        end
+    end.
+
+  Lemma ers_loop_step f s res :
+    ers_loop (S f) s res mv gs
+    = match ers_step s with
+      | inl t => LOk (res ++ t)%string
+      | inr (z, x) => ers_loop f x (res ++ z)%string mv gs
+      end.
+  Proof.
+    cbn [ers_loop]. unfold ers_step. destruct (index_byte 36 s 0) as [pos|]; [|reflexivity].
+    cbv zeta. destruct (sdrop (S pos) s) as [|c s1] eqn:Es; [now rewrite sapp_assoc|].
+    destruct (_ || _); [now rewrite sapp_assoc|].
+    destruct (_ =? 48); [now rewrite sapp_assoc|].
+    rewrite backoff_longest.
+    destruct (longest_group _ _ gs) as [[g k]|]; cbn [option_map]; now rewrite ?sapp_assoc.
+  Qed.
+
+  Lemma index_byte_range b s : forall off p, index_byte b s off = Some p -> (off <= p < off + slen s)%nat.
+  Proof.
+    induction s as [|c s IH]; intros off p; cbn [index_byte]; [discriminate|].
+    destruct (byte_of c =? b).
+    - intro H; inversion H; subst. simpl. lia.
+    - intro H. apply IH in H. simpl. lia.
+  Qed.
+
+  Lemma longest_group_k n ds g k : longest_group n ds gs = Some (g, k) -> (1 <= k)%nat.
+  Proof. intro H. apply longest_group_some in H. lia. Qed.
+
+  (* every iteration consumes at least the dollar sign *)
+  Lemma ers_step_shorter s z x : ers_step s = inr (z, x) -> (slen x < slen s)%nat.
+  Proof.
+    unfold ers_step. destruct (index_byte 36 s 0) as [pos|] eqn:Ei; [|discriminate].
+    apply index_byte_range in Ei. cbv zeta.
+    pose proof (slen_sdrop (S pos) s) as L.
+    destruct (sdrop (S pos) s) as [|c s1] eqn:Es; [discriminate|].
+    destruct (_ || _).
+    - destruct (_ =? 36); intro H; inversion H; subst;
+        unfold slen in *; cbn [String.length] in *; lia.
+    - destruct (_ =? 48); [intro H; inversion H; subst; unfold slen in *; cbn [String.length] in *; lia|].
+      destruct (longest_group _ _ gs) as [[g k]|] eqn:Eg; intro H; inversion H; subst.
+      + apply longest_group_k in Eg. rewrite slen_sdrop.
+        unfold slen in *; cbn [String.length] in *; lia.
+      + unfold slen in *; cbn [String.length] in *; lia.
+  Qed.
+
+  (* the loop with enough fuel and an accumulated result = result ++ the expansion of the rest;
+     in particular the fuel expandReplaceString passes is never exhausted *)
+  Lemma ers_loop_expand : forall n s, (slen s <= n)%nat -> forall f res, (slen s < f)%nat ->
+    ers_loop f s res mv gs = pre res (expand s).
+  Proof.
+    induction n as [|n IH]; intros s Hn f res Hf;
+      (destruct f as [|f]; [lia|]); unfold expand_replace_string; rewrite !ers_loop_step;
+      destruct (ers_step s) as [t|[z x]] eqn:E; try reflexivity;
+      apply ers_step_shorter in E.
+    - lia.
+    - rewrite (IH x) by lia. rewrite (IH x ltac:(lia) (slen s)) by lia.
+      cbn [append]. now rewrite pre_pre.
+  Qed.
+
+  (* the defining equation of the expansion *)
+  Theorem expand_unfold s :
+    expand s = match ers_step s with
+               | inl t => LOk t
+               | inr (z, x) => pre z (expand x)
+               end.
+  Proof.
+    cbv beta. unfold expand_replace_string at 1. rewrite ers_loop_step.
+    destruct (ers_step s) as [t|[z x]] eqn:E; [reflexivity|].
+    apply ers_step_shorter in E. now rewrite (ers_loop_expand (slen x)) by lia.
+  Qed.
+
+  Theorem expand_never_out_of_fuel s : expand s <> LFuel.
+  Proof.
+    cbv beta. remember (slen s) as n eqn:Hn. revert s Hn.
+    induction n as [n IH] using lt_wf_ind. intros s Hn. rewrite expand_unfold.
+    destruct (ers_step s) as [t|[z x]] eqn:E; [discriminate|].
+    apply ers_step_shorter in E. specialize (IH (slen x) ltac:(lia) x eq_refl).
+    cbv beta in IH. destruct (expand_replace_string x mv gs); cbn; congruence.
+  Qed.
+
+  (* --- clause: text without a dollar sign is copied --- *)
+  Theorem template_no_dollar s : index_byte 36 s 0 = None -> expand s = LOk s.
+  Proof. intro H. rewrite expand_unfold. unfold ers_step. now rewrite H. Qed.
+
+  Lemma index_byte_shift b s : forall off, index_byte b s (S off) = option_map S (index_byte b s off).
+  Proof.
+    induction s as [|c s IH]; intros off; cbn [index_byte]; [reflexivity|].
+    destruct (byte_of c =? b); [reflexivity|apply IH].
+  Qed.
+
+  (* --- clause: a byte other than the dollar sign in front is copied --- *)
+  Theorem template_literal_char c s :
+    byte_of c <> 36 -> expand (String c s) = pre (String c EmptyString) (expand s).
+  Proof.
+    intro Hc. cbv beta. rewrite (expand_unfold (String c s)), (expand_unfold s). unfold ers_step.
+    cbn [index_byte]. replace (byte_of c =? 36) with false by lia.
+    rewrite index_byte_shift. destruct (index_byte 36 s 0) as [pos|]; cbn [option_map]; [|reflexivity].
+    change (sdrop (S (S pos)) (String c s)) with (sdrop (S pos) s).
+    change (stake (S pos) (String c s)) with (String c (stake pos s)). cbv zeta.
+    destruct (sdrop (S pos) s) as [|c1 s1]; [reflexivity|].
+    destruct (_ || _); [now rewrite pre_pre|].
+    destruct (_ =? 48); [now rewrite pre_pre|].
+    destruct (longest_group _ _ gs) as [[g k]|]; now rewrite pre_pre.
+  Qed.
+
+  (* --- clause: any dollar-free prefix is copied --- *)
+  Theorem template_literal_prefix p s :
+    index_byte 36 p 0 = None -> expand (p ++ s)%string = pre p (expand s).
+  Proof.
+    induction p as [|c p IH]; intro H; [now rewrite pre_nil|].
+    cbn [index_byte] in H. destruct (byte_of c =? 36) eqn:E; [discriminate|].
+    rewrite index_byte_shift in H. destruct (index_byte 36 p 0); [discriminate|].
+    cbn [append]. cbv beta in *. rewrite template_literal_char by lia. rewrite IH by reflexivity.
+    now rewrite pre_pre.
+  Qed.
+
+  (* --- clause: a dollar sign at the very end stays --- *)
+  Theorem template_dollar_end : expand "$" = LOk "$"%string.
+  Proof. reflexivity. Qed.
+
+  Lemma ers_step_dollar s :
+    ers_step (String "$" s)
+    = match s with
+      | EmptyString => inl "$"%string
+      | String _ s1 =>
+          let r := fst (decode_rune s) in
+          if (r =? 36) || (r <? 48) || (r >? 57) then inr ("$"%string, if r =? 36 then s1 else s)
+          else if r =? 48 then inr (mv, s1)
+          else match longest_group (List.length (leading_digits s)) (leading_digits s) gs with
+               | Some (g, k) => inr (g, sdrop k s)
+               | None => inr (EmptyString, s1)
+               end
+      end.
+  Proof. reflexivity. Qed.
+
+  Lemma decode_rune_ascii c s : byte_of c < 128 -> fst (decode_rune (String c s)) = byte_of c.
+  Proof. intro H. unfold decode_rune. now replace (byte_of c <? 128) with true by lia. Qed.
+
+  (* --- clause: two dollar signs give one --- *)
+  Theorem template_dollar_dollar s : expand (String "$" (String "$" s)) = pre "$" (expand s).
+  Proof. cbv beta. rewrite expand_unfold, ers_step_dollar. reflexivity. Qed.
+
+  (* --- clause: a dollar sign followed by a rune that is neither a digit nor a dollar sign
+     stays, and so does the rune --- *)
+  Theorem template_lone_dollar c s :
+    let r := fst (decode_rune (String c s)) in
+    r <> 36 -> r < 48 \/ r > 57 ->
+    expand (String "$" (String c s)) = pre "$" (expand (String c s)).
+  Proof.
+    intros r H1 H2. cbv beta. rewrite expand_unfold, ers_step_dollar. cbv zeta. fold r.
+    replace ((r =? 36) || (r <? 48) || (r >? 57)) with true by lia.
+    replace (r =? 36) with false by lia. reflexivity.
+  Qed.
+
+  Corollary template_lone_dollar_ascii c s :
+    byte_of c < 128 -> byte_of c <> 36 -> byte_of c < 48 \/ byte_of c > 57 ->
+    expand (String "$" (String c s)) = pre "$" (expand (String c s)).
+  Proof.
+    intros H0 H1 H2. apply template_lone_dollar; rewrite decode_rune_ascii by exact H0; assumption.
+  Qed.
+
+  (* --- clause: dollar zero is the whole match --- *)
+  Theorem template_dollar_zero s : expand (String "$" (String "0" s)) = pre mv (expand s).
+  Proof. cbv beta. rewrite expand_unfold, ers_step_dollar. reflexivity. Qed.
+
+  (* --- clause: a dollar sign followed by a digit 1-9: with [ds] the whole run of digits, the
+     LONGEST prefix of the run that names an existing group (1-based) is replaced by that
+     group's text and the remaining digits stay; if no prefix names a group the dollar sign and
+     the first digit are dropped --- *)
+  Theorem template_group c s :
+    49 <= byte_of c <= 57 ->
+    expand (String "$" (String c s))
+    = match longest_group (List.length (leading_digits (String c s))) (leading_digits (String c s)) gs with
+      | Some (g, k) => pre g (expand (sdrop k (String c s)))
+      | None => expand s
+      end.
+  Proof.
+    intro Hc. cbv beta. rewrite expand_unfold, ers_step_dollar. cbv zeta.
+    rewrite decode_rune_ascii by lia.
+    replace ((byte_of c =? 36) || (byte_of c <? 48) || (byte_of c >? 57)) with false by lia.
+    replace (byte_of c =? 48) with false by lia.
+    destruct (longest_group _ _ gs) as [[g k]|]; [reflexivity|apply pre_nil].
+  Qed.
+
+  Corollary template_group_found c s g k :
+    49 <= byte_of c <= 57 ->
+    let ds := leading_digits (String c s) in
+    (1 <= k <= List.length ds)%nat -> names_group gs ds k ->
+    (forall k', (k < k' <= List.length ds)%nat -> ~ names_group gs ds k') ->
+    g = nth (Z.to_nat (group_index k ds)) gs EmptyString ->
+    expand (String "$" (String c s)) = pre g (expand (sdrop k (String c s))).
+  Proof.
+    intros Hc ds Hk Hn Hmax Hg. cbv beta. rewrite template_group by exact Hc. fold ds.
+    destruct (longest_group (List.length ds) ds gs) as [[g' k']|] eqn:E.
+    - apply longest_group_some in E as (E1 & E2 & E3 & E4).
+      assert (k' = k).
+      { destruct (lt_eq_lt_dec k k') as [[L|L]|L]; [|exact (eq_sym L)|].
+        - exfalso. apply (Hmax k'); [lia|exact E2].
+        - exfalso. apply (E4 k); [lia|exact Hn]. }
+      subst k'. congruence.
+    - exfalso. exact (longest_group_none _ _ _ E k Hk Hn).
+  Qed.
+
+  Corollary template_group_none c s :
+    49 <= byte_of c <= 57 ->
+    let ds := leading_digits (String c s) in
+    (forall k, (1 <= k <= List.length ds)%nat -> ~ names_group gs ds k) ->
+    expand (String "$" (String c s)) = expand s.
+  Proof.
+    intros Hc ds Hnone. cbv beta. rewrite template_group by exact Hc. fold ds.
+    destruct (longest_group (List.length ds) ds gs) as [[g' k']|] eqn:E; [|reflexivity].
+    apply longest_group_some in E as (E1 & E2 & _). exfalso. exact (Hnone k' E1 E2).
+  Qed.
+End Template.
+
+(* a byte >= 0x80 starts a rune >= 0x80 (or is invalid: U+FFFD): never a digit, never a dollar
+   sign, so a dollar sign in front of it stays *)
+Lemma byte_of_range c : 0 <= byte_of c < 256.
+Proof. unfold byte_of. pose proof (N_ascii_bounded c). lia. Qed.
+
+Lemma decode_rune_nonascii c s : 128 <= byte_of c -> 128 <= fst (decode_rune (String c s)).
+Proof.
+  intro H. unfold decode_rune. replace (byte_of c <? 128) with false by lia.
+  unfold lead_info. replace (byte_of c <? 128) with false by lia.
+  pose proof (byte_of_range c) as R.
+  assert (RE : 128 <= RuneError) by (unfold RuneError; lia).
+  repeat match goal with
+         | |- context [if ?b then _ else _] => destruct b eqn:?
+         | |- context [match ?x with EmptyString => _ | String _ _ => _ end] => destruct x
+         end; cbn [fst]; try exact RE;
+    repeat match goal with
+           | H : (_ <? _) = _ |- _ => first [apply Z.ltb_lt in H | apply Z.ltb_ge in H]
+           | H : (_ <=? _) = _ |- _ => first [apply Z.leb_le in H | apply Z.leb_gt in H]
+           | H : (_ =? _) = _ |- _ => first [apply Z.eqb_eq in H | apply Z.eqb_neq in H]
+           | H : negb _ = false |- _ => apply negb_false_iff in H
+           | H : (_ && _) = true |- _ => apply andb_true_iff in H; destruct H
+           | H : (_ =? _)%nat = _ |- _ => cbn in H; first [discriminate H | clear H]
+           end;
+    unfold is_cont in *;
+    repeat match goal with
+           | H : (_ && _) = true |- _ => apply andb_true_iff in H; destruct H
+           | H : (_ <=? _) = _ |- _ => first [apply Z.leb_le in H | apply Z.leb_gt in H]
+           end;
+    try (Z.div_mod_to_equations; lia).
+Qed.
+
+Corollary template_lone_dollar_nonascii mv gs c s :
+  128 <= byte_of c ->
+  expand_replace_string (String "$" (String c s)) mv gs
+  = pre "$" (expand_replace_string (String c s) mv gs).
+Proof.
+  intro H. pose proof (decode_rune_nonascii c s H) as R.
+  apply template_lone_dollar; lia.
+Qed.
+Print Assumptions template_lone_dollar_nonascii.
+
+(* the digits that are dropped are exactly the first k of the run; the digit run consists of
+   digit runes *)
+Lemma leading_digits_digits s : Forall (fun r => 48 <= r <= 57) (leading_digits s).
+Proof.
+  induction s as [|c s IH]; cbn [leading_digits]; [constructor|].
+  destruct ((48 <=? byte_of c) && (byte_of c <=? 57)) eqn:E; constructor; [lia|exact IH].
+Qed.
+
+Lemma Forall_firstn_ {A} (P : A -> Prop) k : forall l, Forall P l -> Forall P (firstn k l).
+Proof.
+  induction k as [|k IH]; intros l F; [constructor|].
+  destruct l as [|x l]; [constructor|]. inversion F; subst. cbn [firstn]. constructor; auto.
+Qed.
+
+(* for prefixes of at most 18 digits nothing wraps: the group a prefix names is its decimal
+   value minus one *)
+Corollary group_index_dec k ds :
+  Forall (fun r => 48 <= r <= 57) ds -> (k <= 18)%nat ->
+  group_index k ds = dec_value (firstn k ds) - 1.
+Proof.
+  intros F K. unfold group_index.
+  pose proof (Forall_firstn_ _ k ds F) as Ff.
+  assert (L : (List.length (firstn k ds) <= 18)%nat) by (rewrite firstn_length; lia).
+  rewrite num_prefix_dec by assumption.
+  pose proof (dec_value_bound _ Ff) as B.
+  assert (10 ^ Z.of_nat (List.length (firstn k ds)) <= 10 ^ 18) by (apply Z.pow_le_mono_r; lia).
+  unfold wrap_int. rewrite Z.mod_small; lia.
+Qed.
+
+Print Assumptions expand_unfold.
+Print Assumptions template_group.
+Print Assumptions template_group_found.
+
+(* the model's library dispatcher (Model/LibDispatch.v) answers the evaluator's
+   "expandReplaceString" request with expand_replace_string: the hypothesis of
+   replace_template holds for it, whatever the case-mapping oracles are *)
+From JV Require Model.LibDispatch.
+Lemma xlib_expand_ok up lo t mv gs :
+  LibDispatch.xlib up lo "expandReplaceString"%string [AStr t; AStr mv; AVal (Some (VArr (map VStr gs)))]
+  = Some (lmap (fun e => Some (VStr e)) (expand_replace_string t mv gs)).
+Proof.
+  change (LibDispatch.xlib up lo "expandReplaceString"%string
+            [AStr t; AStr mv; AVal (Some (VArr (map VStr gs)))])
+    with (Some (LibDispatch.ok_str (expand_replace_string t mv (somes (map str_of (map VStr gs)))))).
+  now rewrite somes_str_of_map_VStr.
+Qed.
+
+(* the expansion never fails: it is LOk for every template, match and group list *)
+Theorem expand_total mv gs : forall t, exists e, expand_replace_string t mv gs = LOk e.
+Proof.
+  intro t. remember (slen t) as n eqn:Hn. revert t Hn.
+  induction n as [n IH] using lt_wf_ind. intros t Hn. rewrite expand_unfold.
+  destruct (ers_step mv gs t) as [u|[z x]] eqn:E; [eexists; reflexivity|].
+  apply ers_step_shorter in E. destruct (IH (slen x) ltac:(lia) x eq_refl) as (e & ->).
+  eexists. reflexivity.
+Qed.
+Print Assumptions expand_total.
+
+(* ==================================================================================== *)
+(* H. integers below 2^53 survive the trip through float64                              *)
+(* ==================================================================================== *)
+(* axiom-free: f_of_Z of a positive integer below 2^53 is the float whose 53-bit mantissa is the
+   integer shifted left, with the matching non-positive exponent (binary_normalize does not
+   round), and go_int shifts it back *)
+From Coq Require Import Floats.SpecFloat Zpower.
+Lemma digits2_pos_lower m : 2 ^ (Zpos (digits2_pos m) - 1) <= Zpos m.
+Proof.
+  induction m as [p IH|p IH|]; cbn [digits2_pos].
+  - rewrite Pos2Z.inj_succ. replace (Z.succ (Zpos (digits2_pos p)) - 1) with (Z.succ (Zpos (digits2_pos p) - 1)) by lia.
+    rewrite Z.pow_succ_r by lia. lia.
+  - rewrite Pos2Z.inj_succ. replace (Z.succ (Zpos (digits2_pos p)) - 1) with (Z.succ (Zpos (digits2_pos p) - 1)) by lia.
+    rewrite Z.pow_succ_r by lia. lia.
+  - cbn. lia.
+Qed.
+
+Lemma digits2_pos_le53 m : Zpos m < 2 ^ 53 -> Zpos (digits2_pos m) <= 53.
+Proof.
+  intro H. pose proof (digits2_pos_lower m) as L.
+  destruct (Z_le_gt_dec (Zpos (digits2_pos m)) 53) as [|G]; [assumption|exfalso].
+  assert (2 ^ 53 <= 2 ^ (Zpos (digits2_pos m) - 1)) by (apply Z.pow_le_mono_r; lia). lia.
+Qed.
+
+Lemma digits2_pos_shift k m : digits2_pos (shift_pos k m) = (digits2_pos m + k)%positive.
+Proof.
+  unfold shift_pos. induction k using Pos.peano_ind.
+  - cbn. now rewrite Pos.add_1_r.
+  - rewrite Pos.iter_succ. cbn [digits2_pos]. rewrite IHk. lia.
+Qed.
+
+Lemma shift_pos_val k m : Zpos (shift_pos k m) = Zpos m * 2 ^ Zpos k.
+Proof. rewrite shift_pos_correct. rewrite Zpower_pos_nat, Zpower_nat_Z, positive_nat_Z. lia. Qed.
+
+Lemma f_of_Z_pos m : Zpos m < 2 ^ 53 ->
+  exists mz ez, f_of_Z (Zpos m) = S754_finite false mz ez /\ -52 <= ez <= 0 /\ Zpos mz = Zpos m * 2 ^ (- ez).
+Proof.
+  intro H. pose proof (digits2_pos_le53 m H) as D.
+  unfold f_of_Z, f_of_Zexp, binary_normalize, binary_round.
+  assert (E : fexp prec emax (Zpos (digits2_pos m) + 0) = Zpos (digits2_pos m) - 53).
+  { unfold fexp, emin, prec, emax. lia. }
+  rewrite E. unfold shl_align.
+  assert (AUX : forall mz ez, Zpos (digits2_pos mz) = 53 -> -52 <= ez <= 0 ->
+                binary_round_aux prec emax false (Zpos mz) ez loc_Exact = S754_finite false mz ez).
+  { intros mz ez Hd He. unfold binary_round_aux, shr_fexp. cbn [Zdigits2].
+    assert (E0 : fexp prec emax (Zpos (digits2_pos mz) + ez) - ez = 0).
+    { unfold fexp, emin, prec, emax. lia. }
+    rewrite E0. cbn [shr shr_record_of_loc shr_m loc_of_shr_record round_nearest_even Zdigits2].
+    rewrite E0. cbn [shr shr_m].
+    unfold prec, emax. replace (Zle_bool ez (1024 - 53)) with true; [reflexivity|].
+    symmetry. apply Zle_is_le_bool. lia. }
+  destruct (Zpos (digits2_pos m) - 53 - 0) as [|q|k] eqn:Ek.
+  - exists m, 0. rewrite AUX by lia. repeat split; try lia.
+  - lia.
+  - exists (shift_pos k m), (Zpos (digits2_pos m) - 53).
+    rewrite AUX; [| rewrite digits2_pos_shift; lia | lia].
+    repeat split; try lia. rewrite shift_pos_val. f_equal. f_equal. lia.
+Qed.
+
+Theorem go_int_exact z : 0 <= z < 2 ^ 53 -> go_int (f_of_Z z) = z.
+Proof.
+  intros [H0 H1]. destruct z as [|m|m]; [reflexivity| |lia].
+  destruct (f_of_Z_pos m H1) as (mz & ez & -> & He & Hm).
+  unfold go_int, Z_trunc, abs_int_frac.
+  assert (Q : (let '(q, _) := match ez with
+                              | Z.neg p => (Z.pos mz / 2 ^ Z.pos p, negb (Z.pos mz mod 2 ^ Z.pos p =? 0))
+                              | _ => (Z.pos mz * 2 ^ ez, false)
+                              end in Some (if false then - q else q)) = Some (Zpos m)).
+  { destruct ez as [|p|p]; [|lia|].
+    - cbn in Hm. f_equal. lia.
+    - change (- Z.neg p) with (Zpos p) in Hm. rewrite Hm. rewrite Z.div_mul; [reflexivity|].
+      apply Z.pow_nonzero; lia. }
+  rewrite Q. replace ((- 2 ^ 63 <=? Zpos m) && (Zpos m <? 2 ^ 63)) with true; [reflexivity|].
+  symmetry. apply andb_true_iff. split; [apply Z.leb_le|apply Z.ltb_lt]; lia.
+Qed.
+
+Lemma int_exact_small n : n < 2 ^ 53 -> int_exact n.
+Proof. intros H z Hz. apply go_int_exact. lia. Qed.
+Print Assumptions int_exact_small.
+
+(* the headline statements with the side condition spelled out: subjects shorter than 2^53 bytes *)
+Section Bounded.
+  Variables (fm : f64 -> string) (regex_find : string -> string -> option (list (list (Z * Z))))
+            (pw : f64 -> f64 -> option f64) (xl : string -> list carg -> option (lres ovalue)).
+  Variables (s src : string) (ms : list (list (Z * Z))).
+  Hypothesis Hlen : Z.of_nat (slen s) < 2 ^ 53.
+  Hypothesis Horacle : regex_find src s = Some ms.
+  Hypothesis Hwf : wf_matches s ms.
+  Notation call' := (call fm regex_find pw xl).
+  Notation call_builtin' := (call_builtin fm regex_find pw xl).
+
+  Theorem C17_next_chain f fuel w :
+    (fuel > List.length ms)%nat ->
+    call' (S (S f)) (CRegex src) None None [Some (VStr s)] w = Ok (chain_value src s ms) w /\
+    call_match_func fuel (fun c a => call' (S (S f)) c None None a) (CRegex src) [Some (VStr s)] [] w
+    = Ok (map (mrec_of s) ms) w.
+  Proof.
+    intro Hf. split.
+    - exact (regex_call_first regex_find _ (call_chain_apply_ok regex_find fm pw xl f) s src ms
+                              Horacle Hwf [] w).
+    - exact (match_chain_enumerates regex_find _ (call_chain_apply_ok regex_find fm pw xl f) s
+                                    (int_exact_small _ Hlen) src ms Horacle Hwf fuel w Hf).
+  Qed.
+
+  Theorem C17_match f lim w :
+    call_builtin' (S (S (S f))) "match" [AStr s; AFun (CRegex src); lim] w
+    = if limit_or lim 0 <? 0 then Err (ELib "match: limit")
+      else Ok (Some (VArr (map match_result (map (mrec_of s) (take_limit (limit_or lim (-1)) ms))))) w.
+  Proof. exact (match_spec fm regex_find pw xl s src ms (int_exact_small _ Hlen) Horacle Hwf f lim w). Qed.
+
+  Theorem C17_contains f w :
+    call_builtin' (S (S (S f))) "contains" [AStr s; AFun (CRegex src)] w
+    = Ok (Some (VBool (match ms with [] => false | _ => true end))) w.
+  Proof. exact (contains_iff fm regex_find pw xl s src ms (int_exact_small _ Hlen) Horacle Hwf f w). Qed.
+
+  Theorem C17_split f lim w :
+    call_builtin' (S (S (S f))) "split" [AStr s; AFun (CRegex src); lim] w
+    = if limit_or lim 0 <? 0 then Err (ELib "split: limit")
+      else Ok (Some (VArr (map VStr (split_limit (limit_of lim) (between s 0 (map span_of ms)))))) w.
+  Proof. exact (split_between fm regex_find pw xl s src ms (int_exact_small _ Hlen) Horacle Hwf f lim w). Qed.
+
+  Theorem C17_replace f repl lim w :
+    (match repl with AStr _ | AFun _ => True | _ => False end) ->
+    let sel := take_limit (limit_or lim (-1)) ms in
+    call_builtin' (S (S (S f))) "replace" [AStr s; AFun (CRegex src); repl; lim] w
+    = if limit_or lim 0 <? 0 then Err (ELib "replace: limit")
+      else bind (mapM (replacement xl (fun c' a => call' (S (S f)) c' None None a) repl)
+                      (rev (map (mrec_of s) sel)))
+                (fun rs => ret (Some (VStr (replace_fwd s 0 (combine (map span_of sel) (rev rs)))))) w.
+  Proof.
+    exact (replace_backwards_is_forwards fm regex_find pw xl s src ms (int_exact_small _ Hlen)
+                                         Horacle Hwf f repl lim w).
+  Qed.
+End Bounded.
+Print Assumptions C17_next_chain.
+Print Assumptions C17_match.
+Print Assumptions C17_contains.
+Print Assumptions C17_split.
+Print Assumptions C17_replace.
+
+(* ==================================================================================== *)
+(* I. from the built-in table to the regex branches                                     *)
+(* ==================================================================================== *)
+(* goCallable.Call on $match / $contains / $split / $replace with a string and a function
+   argument: the signature machinery (argument count, conversion, optional limit) delivers
+   exactly the converted argument lists the theorems above are about *)
+Section Dispatch.
+  Variables (fm : f64 -> string) (regex_find : string -> string -> option (list (list (Z * Z))))
+            (pw : f64 -> f64 -> option f64) (xl : string -> list carg -> option (lres ovalue)).
+  Notation call' := (call fm regex_find pw xl).
+  Notation call_builtin' := (call_builtin fm regex_find pw xl).
+
+  Lemma dispatch_match f nm ctx s c :
+    call' (S f) (CBuiltin "match") nm ctx [Some (VStr s); Some (VFun c)]
+    = call_builtin' f "match" [AStr s; AFun c; AOpt None].
+  Proof. reflexivity. Qed.
+  Lemma dispatch_match_limit f nm ctx s c x :
+    call' (S f) (CBuiltin "match") nm ctx [Some (VStr s); Some (VFun c); Some (VNum x)]
+    = call_builtin' f "match" [AStr s; AFun c; AOpt (Some (AInt (go_int x)))].
+  Proof. reflexivity. Qed.
+  Lemma dispatch_contains f nm ctx s c :
+    call' (S f) (CBuiltin "contains") nm ctx [Some (VStr s); Some (VFun c)]
+    = call_builtin' f "contains" [AStr s; AFun c].
+  Proof. reflexivity. Qed.
+  Lemma dispatch_split f nm ctx s c :
+    call' (S f) (CBuiltin "split") nm ctx [Some (VStr s); Some (VFun c)]
+    = call_builtin' f "split" [AStr s; AFun c; AOpt None].
+  Proof. reflexivity. Qed.
+  Lemma dispatch_split_limit f nm ctx s c x :
+    call' (S f) (CBuiltin "split") nm ctx [Some (VStr s); Some (VFun c); Some (VNum x)]
+    = call_builtin' f "split" [AStr s; AFun c; AOpt (Some (AInt (go_int x)))].
+  Proof. reflexivity. Qed.
+  Lemma dispatch_replace f nm ctx s c t :
+    call' (S f) (CBuiltin "replace") nm ctx [Some (VStr s); Some (VFun c); Some (VStr t)]
+    = call_builtin' f "replace" [AStr s; AFun c; AStr t; AOpt None].
+  Proof. reflexivity. Qed.
+  Lemma dispatch_replace_fun f nm ctx s c fr :
+    call' (S f) (CBuiltin "replace") nm ctx [Some (VStr s); Some (VFun c); Some (VFun fr)]
+    = call_builtin' f "replace" [AStr s; AFun c; AFun fr; AOpt None].
+  Proof. reflexivity. Qed.
+  Lemma dispatch_replace_limit f nm ctx s c t x :
+    call' (S f) (CBuiltin "replace") nm ctx [Some (VStr s); Some (VFun c); Some (VStr t); Some (VNum x)]
+    = call_builtin' f "replace" [AStr s; AFun c; AStr t; AOpt (Some (AInt (go_int x)))].
+  Proof. reflexivity. Qed.
+
+  Variables (s src : string) (ms : list (list (Z * Z))).
+  Hypothesis Hlen : Z.of_nat (slen s) < 2 ^ 53.
+  Hypothesis Horacle : regex_find src s = Some ms.
+  Hypothesis Hwf : wf_matches s ms.
+
+  (*  $match(s, /src/)  and  $match(s, /src/, n)  as the evaluator calls them *)
+  Theorem C17_match_call f nm ctx w :
+    call' (S (S (S (S f)))) (CBuiltin "match") nm ctx [Some (VStr s); Some (VFun (CRegex src))] w
+    = Ok (Some (VArr (map match_result (map (mrec_of s) ms)))) w.
+  Proof.
+    rewrite dispatch_match.
+    exact (match_spec_all fm regex_find pw xl s src ms (int_exact_small _ Hlen) Horacle Hwf f w).
+  Qed.
+
+  Theorem C17_match_call_limit f nm ctx x w :
+    call' (S (S (S (S f)))) (CBuiltin "match") nm ctx
+          [Some (VStr s); Some (VFun (CRegex src)); Some (VNum x)] w
+    = if go_int x <? 0 then Err (ELib "match: limit")
+      else Ok (Some (VArr (map match_result (map (mrec_of s) (firstn (Z.to_nat (go_int x)) ms))))) w.
+  Proof.
+    rewrite dispatch_match_limit. destruct (go_int x <? 0) eqn:E.
+    - apply (match_spec_negative fm regex_find pw xl s src ms (int_exact_small _ Hlen) Horacle Hwf). lia.
+    - apply (match_spec_limit fm regex_find pw xl s src ms (int_exact_small _ Hlen) Horacle Hwf). lia.
+  Qed.
+
+  Theorem C17_contains_call f nm ctx w :
+    call' (S (S (S (S f)))) (CBuiltin "contains") nm ctx [Some (VStr s); Some (VFun (CRegex src))] w
+    = Ok (Some (VBool (match ms with [] => false | _ => true end))) w.
+  Proof.
+    rewrite dispatch_contains.
+    exact (contains_iff fm regex_find pw xl s src ms (int_exact_small _ Hlen) Horacle Hwf f w).
+  Qed.
+
+  Theorem C17_split_call f nm ctx w :
+    call' (S (S (S (S f)))) (CBuiltin "split") nm ctx [Some (VStr s); Some (VFun (CRegex src))] w
+    = Ok (Some (VArr (map VStr (between s 0 (map span_of ms))))) w.
+  Proof.
+    rewrite dispatch_split.
+    exact (split_between fm regex_find pw xl s src ms (int_exact_small _ Hlen) Horacle Hwf f (AOpt None) w).
+  Qed.
+
+  Theorem C17_replace_literal_call f nm ctx t w :
+    scontains "$" t = false ->
+    call' (S (S (S (S f)))) (CBuiltin "replace") nm ctx
+          [Some (VStr s); Some (VFun (CRegex src)); Some (VStr t)] w
+    = Ok (Some (VStr (replace_fwd s 0 (map (fun m => (span_of m, t)) ms)))) w.
+  Proof.
+    intro Ht. rewrite dispatch_replace.
+    rewrite (replace_literal fm regex_find pw xl s src ms (int_exact_small _ Hlen) Horacle Hwf f t (AOpt None) w Ht)
+      by (cbn; lia).
+    cbn [limit_or limit_of]. now rewrite take_limit_neg by lia.
+  Qed.
+End Dispatch.
+Print Assumptions C17_match_call.
+Print Assumptions C17_match_call_limit.
+Print Assumptions C17_split_call.
+Print Assumptions C17_replace_literal_call.
+
+(* ==================================================================================== *)
+(* Examples: the hypotheses are satisfiable, the statements compute                     *)
+(* ==================================================================================== *)
+Definition ex_subject : string := "xabyabbz".
+(* /a(b+)(c)?/ on the subject: two matches, group 2 never participates *)
+Definition ex_matches : list (list (Z * Z)) := [[(1, 3); (2, 3); (-1, -1)]; [(4, 7); (5, 7); (-1, -1)]].
+Definition ex_rx (src subj : string) : option (list (list (Z * Z))) :=
+  if seqb src "a(b+)(c)?" && seqb subj ex_subject then Some ex_matches else None.
+Definition ex_fm (x : f64) : string := EmptyString.
+Definition ex_pw (x y : f64) : option f64 := None.
+Definition ex_xl := LibDispatch.xlib (fun _ => None) (fun _ => None).
+Definition w0 : world := mkWorld [].
+
+Example ex_wf : wf_matches ex_subject ex_matches.
+Proof.
+  unfold wf_matches, ex_matches. cbn.
+  repeat (split; try lia);
+    repeat (apply Forall_cons; [first [left; reflexivity | right; cbn; lia]|]); apply Forall_nil.
+Qed.
+
+Example ex_int_exact : int_exact (Z.of_nat (slen ex_subject)).
+Proof.
+  intros z Hz. cbn in Hz.
+  assert (E : z = 0 \/ z = 1 \/ z = 2 \/ z = 3 \/ z = 4 \/ z = 5 \/ z = 6 \/ z = 7 \/ z = 8) by lia.
+  repeat (destruct E as [->|E]; [reflexivity|]). subst. reflexivity.
+Qed.
+
+Example ex_chain :
+  call_match_func 3 (fun c a => call ex_fm ex_rx ex_pw ex_xl 2 c None None a)
+                  (CRegex "a(b+)(c)?") [Some (VStr ex_subject)] [] w0
+  = Ok [mkM "ab" 1 3 ["b"; ""]; mkM "abb" 4 7 ["bb"; ""]]%string w0.
+Proof. vm_compute. reflexivity. Qed.
+
+(* the same through the theorem *)
+Example ex_chain_thm :
+  call_match_func 3 (fun c a => call ex_fm ex_rx ex_pw ex_xl 2 c None None a)
+                  (CRegex "a(b+)(c)?") [Some (VStr ex_subject)] [] w0
+  = Ok (map (mrec_of ex_subject) ex_matches) w0.
+Proof.
+  apply (match_chain_enumerates ex_rx _ (call_chain_apply_ok ex_rx ex_fm ex_pw ex_xl 0)
+           ex_subject ex_int_exact "a(b+)(c)?"%string ex_matches eq_refl ex_wf). simpl. lia.
+Qed.
+
+Example ex_match :
+  call_builtin ex_fm ex_rx ex_pw ex_xl 3 "match"
+               [AStr ex_subject; AFun (CRegex "a(b+)(c)?"); AOpt (Some (AInt 1))] w0
+  = Ok (Some (VArr [match_result (mkM "ab" 1 3 ["b"; ""]%string)])) w0.
+Proof. vm_compute. reflexivity. Qed.
+
+Example ex_split :
+  call_builtin ex_fm ex_rx ex_pw ex_xl 3 "split" [AStr ex_subject; AFun (CRegex "a(b+)(c)?"); AOpt None] w0
+  = Ok (Some (VArr [VStr "x"; VStr "y"; VStr "z"])) w0.
+Proof. vm_compute. reflexivity. Qed.
+
+Example ex_split_thm :
+  between ex_subject 0 (map span_of ex_matches) = ["x"; "y"; "z"]%string.
+Proof. reflexivity. Qed.
+
+Example ex_replace :
+  call_builtin ex_fm ex_rx ex_pw ex_xl 3 "replace"
+               [AStr ex_subject; AFun (CRegex "a(b+)(c)?"); AStr "<$1|$2|$0|$$|$12>"; AOpt None] w0
+  = Ok (Some (VStr "x<b||ab|$|b2>y<bb||abb|$|bb2>z")) w0.
+Proof. vm_compute. reflexivity. Qed.
+
+Example ex_replace_thm :
+  replace_fwd ex_subject 0
+    (map (fun m => (span_of m,
+                    match expand_replace_string "<$1|$2|$0|$$|$12>" (m_value (mrec_of ex_subject m))
+                                                (m_groups (mrec_of ex_subject m))
+                    with LOk e => e | _ => EmptyString end)) ex_matches)
+  = "x<b||ab|$|b2>y<bb||abb|$|bb2>z"%string.
+Proof. vm_compute. reflexivity. Qed.
+
+Example ex_template_longest :
+  longest_group 2 [49; 50] ["A"; "B"]%string = Some ("A"%string, 1%nat) /\
+  longest_group 2 [49; 50] ["g1"; "g2"; "g3"; "g4"; "g5"; "g6"; "g7"; "g8"; "g9"; "g10"; "g11"; "g12"]%string
+  = Some ("g12"%string, 2%nat) /\
+  longest_group 1 [57] ["A"]%string = None.
+Proof. repeat split; reflexivity. Qed.
+
+(* through the evaluator, from the AST:  $match("xabyabbz", /a(b+)(c)?/)  and the literal applied
+   as a function  /a(b+)(c)?/("xabyabbz") *)
+Example ex_eval_match :
+  eval ex_fm ex_rx ex_pw ex_xl 8
+       (NCall (NVariable "match") [NString ex_subject; NRegex "a(b+)(c)?"]) None 0 (mkWorld [mkFrame None []])
+  = Ok (Some (VArr (map match_result (map (mrec_of ex_subject) ex_matches)))) (mkWorld [mkFrame None []]).
+Proof. vm_compute. reflexivity. Qed.
+
+Example ex_eval_regex_apply :
+  eval ex_fm ex_rx ex_pw ex_xl 8
+       (NCall (NRegex "a(b+)(c)?") [NString ex_subject]) None 0 (mkWorld [mkFrame None []])
+  = Ok (chain_value "a(b+)(c)?" ex_subject ex_matches) (mkWorld [mkFrame None []]).
+Proof. vm_compute. reflexivity. Qed.
